@@ -2027,6 +2027,176 @@ def t2_hkdf_panic_cases(ctx):
     return out
 
 
+# ---- C19: the RFC definitions written out in Python (expectations of the direct oracles; checked against the RFCs' own vectors
+# by C19.c19_selftest before they are used, and the Gallina specifications are compared with the same implementation results)
+def c19_chacha_block(key, counter, nonce):
+    """RFC 8439 section 2.3"""
+    import struct
+    M = 0xffffffff
+    st = [0x61707865, 0x3320646e, 0x79622d32, 0x6b206574] + list(struct.unpack("<8L", key)) + [counter & M] + list(struct.unpack("<3L", nonce))
+    x = list(st)
+
+    def rotl(v, n):
+        return ((v << n) & M) | (v >> (32 - n))
+
+    def qr(a, b, c, d):
+        x[a] = (x[a] + x[b]) & M; x[d] = rotl(x[d] ^ x[a], 16)
+        x[c] = (x[c] + x[d]) & M; x[b] = rotl(x[b] ^ x[c], 12)
+        x[a] = (x[a] + x[b]) & M; x[d] = rotl(x[d] ^ x[a], 8)
+        x[c] = (x[c] + x[d]) & M; x[b] = rotl(x[b] ^ x[c], 7)
+    for _ in range(10):
+        qr(0, 4, 8, 12); qr(1, 5, 9, 13); qr(2, 6, 10, 14); qr(3, 7, 11, 15)
+        qr(0, 5, 10, 15); qr(1, 6, 11, 12); qr(2, 7, 8, 13); qr(3, 4, 9, 14)
+    return struct.pack("<16L", *[(x[i] + st[i]) & M for i in range(16)])
+
+
+def c19_poly1305(key32, msg):
+    """RFC 8439 section 2.5"""
+    r = int.from_bytes(key32[:16], "little") & 0x0ffffffc0ffffffc0ffffffc0fffffff
+    s = int.from_bytes(key32[16:32], "little")
+    acc, p = 0, (1 << 130) - 5
+    for i in range(0, len(msg), 16):
+        acc = (acc + int.from_bytes(msg[i:i + 16] + b"\x01", "little")) * r % p
+    return ((acc + s) & ((1 << 128) - 1)).to_bytes(16, "little")
+
+
+def c19_seal(key, nonce, aad, pt):
+    """RFC 8439 section 2.8: ciphertext || tag"""
+    import struct
+    otk = c19_chacha_block(key, 0, nonce)[:32]
+    ks = b"".join(c19_chacha_block(key, 1 + i, nonce) for i in range((len(pt) + 63) // 64))
+    ct = bytes(a ^ b for a, b in zip(pt, ks))
+    pad = lambda b: b"\x00" * ((16 - len(b) % 16) % 16)   # noqa: E731
+    return ct + c19_poly1305(otk, aad + pad(aad) + ct + pad(ct) + struct.pack("<QQ", len(aad), len(ct)))
+
+
+def c19_noise_nonce(n):
+    return bytes(4) + (n & (2 ** 64 - 1)).to_bytes(8, "little")
+
+
+def c19_hmac(key, msg):
+    import hmac, hashlib
+    return hmac.new(key, msg, hashlib.sha256).digest()
+
+
+def c19_hmac_spelled_out(key, msg):
+    """RFC 2104 over hashlib.sha256 only: a key longer than the BLOCK (64 bytes) is hashed, every other key is zero-padded to 64"""
+    import hashlib
+    if len(key) > 64:
+        key = hashlib.sha256(key).digest()
+    key = key + bytes(64 - len(key))
+    return hashlib.sha256(bytes(b ^ 0x5c for b in key) + hashlib.sha256(bytes(b ^ 0x36 for b in key) + msg).digest()).digest()
+
+
+def c19_hkdf(salt, ikm, info, n):
+    """RFC 5869 sections 2.2, 2.3 (1 <= n <= 8160)"""
+    prk = c19_hmac_spelled_out(salt, ikm)
+    t, okm, i = b"", b"", 1
+    while len(okm) < n:
+        t = c19_hmac_spelled_out(prk, t + info + bytes([i]))
+        okm += t
+        i += 1
+    return okm[:n]
+
+
+def c19_x25519(k, u):
+    """RFC 7748 section 5 (the value; the all-zero check is the caller's)"""
+    P = 2 ** 255 - 19
+    kk = int.from_bytes(k, "little")
+    kk &= ~7 & ((1 << 256) - 1)
+    kk &= (1 << 255) - 1
+    kk |= 1 << 254
+    x1 = (int.from_bytes(u, "little") & ((1 << 255) - 1)) % P
+    x2, z2, x3, z3, swap = 1, 0, x1, 1, 0
+    for t in range(254, -1, -1):
+        kt = (kk >> t) & 1
+        swap ^= kt
+        if swap:
+            x2, x3, z2, z3 = x3, x2, z3, z2
+        swap = kt
+        A = (x2 + z2) % P; AA = A * A % P; B = (x2 - z2) % P; BB = B * B % P
+        E = (AA - BB) % P; C = (x3 + z3) % P; D = (x3 - z3) % P
+        DA = D * A % P; CB = C * B % P
+        x3 = (DA + CB) ** 2 % P; z3 = x1 * (DA - CB) ** 2 % P
+        x2 = AA * BB % P; z2 = E * (AA + 121665 * E) % P
+    if swap:
+        x2, x3, z2, z3 = x3, x2, z3, z2
+    return (x2 * pow(z2, P - 2, P) % P).to_bytes(32, "little")
+
+
+def c19_reference(c):
+    """the RFC value of one driver request (a vlib.Case): ("ok", bytes) | ("reject", None) | None when the op has no reference here"""
+    import hashlib
+    a, op = c.a, c.op
+    if op == "seal" and len(a["key"]) == 32 and len(a["nonce"]) == 12:
+        return ("ok", c19_seal(a["key"], a["nonce"], a["ad"], a["x"]))
+    if op == "nseal" and len(a["key"]) == 32 and 0 <= a["n"] < 2 ** 64 - 1:
+        return ("ok", c19_seal(a["key"], c19_noise_nonce(a["n"]), a["ad"], a["x"]))
+    if op in ("open", "nopen") and len(a["key"]) == 32:
+        nonce = a["nonce"] if op == "open" else c19_noise_nonce(a["n"])
+        if len(nonce) != 12:
+            return None
+        x = a["x"]
+        if len(x) < 16:
+            return ("reject", None)
+        otk = c19_chacha_block(a["key"], 0, nonce)[:32]
+        pad = lambda b: b"\x00" * ((16 - len(b) % 16) % 16)   # noqa: E731
+        ct = x[:-16]
+        import struct
+        if c19_poly1305(otk, a["ad"] + pad(a["ad"]) + ct + pad(ct) + struct.pack("<QQ", len(a["ad"]), len(ct))) != x[-16:]:
+            return ("reject", None)
+        ks = b"".join(c19_chacha_block(a["key"], 1 + i, nonce) for i in range((len(ct) + 63) // 64))
+        return ("ok", bytes(p ^ q for p, q in zip(ct, ks)))
+    if op == "sha256":
+        return ("ok", hashlib.sha256(a["m"]).digest())
+    if op == "hmac":
+        return ("ok", c19_hmac_spelled_out(a["k"], a["m"]))
+    if op == "hkdf" and 1 <= a["n"] <= 8160:
+        return ("ok", c19_hkdf(a["salt"], a["ikm"], a["info"], a["n"]))
+    if op == "x25519" and len(a["k"]) == 32 and len(a["u"]) == 32:
+        v = c19_x25519(a["k"], a["u"])
+        return ("reject", None) if v == bytes(32) else ("ok", v)
+    if op == "xpub" and len(a["k"]) == 32:
+        return ("ok", c19_x25519(a["k"], b"\x09" + bytes(31)))
+    return None
+
+
+C19_WHAT = {"seal": "RFC 8439 2.8 AEAD seal", "nseal": "RFC 8439 seal under the Noise nonce (4 zero bytes || 64-bit little-endian counter)",
+            "open": "RFC 8439 2.8 AEAD open", "nopen": "RFC 8439 open under the Noise nonce", "sha256": "FIPS 180-4 SHA-256",
+            "hmac": "RFC 2104 HMAC-SHA-256 (a key is hashed only when longer than the 64-byte block)", "hkdf": "RFC 5869 HKDF-SHA-256",
+            "x25519": "RFC 7748 X25519 (an all-zero result is an error)", "xpub": "RFC 7748 X25519 of the base point 9"}
+
+
+def c19_verdict(c, r):
+    """None when the driver result r of request c equals the RFC value, else (expected, observed)"""
+    ref = c19_reference(c)
+    if ref is None:
+        return None
+    kind, val = ref
+    if kind == "ok":
+        if r["code"] == 0 and r["out"] == val:
+            return None
+        return ("%s: the value %s%s" % (C19_WHAT[c.op], val[:64].hex(), "" if len(val) <= 64 else "..(%d bytes, sha256 %s)" % (
+            len(val), __import__("hashlib").sha256(val).hexdigest())),
+                "%s out=%s%s" % (r["outcome"], r["out"][:64].hex(), "" if len(r["out"]) <= 64 else "..(%d bytes)" % len(r["out"])))
+    if r["code"] in (51, 83):
+        return None
+    return ("%s: an error, no value" % C19_WHAT[c.op], "%s out=%s" % (r["outcome"], r["out"][:64].hex()))
+
+
+def c19_with_reference(c):
+    """adds the RFC-value oracle to a case (keeps an oracle it already has: both are evaluated)"""
+    prev = c.expect_fn
+
+    def f(r, c=c, prev=prev):
+        m = prev(r) if prev is not None else None
+        if m:
+            return m
+        return c19_verdict(c, r)
+    c.expect_fn = f
+    return c
+
+
 class C19(Prop):
     id = "C19"
     model_is_reference = True
@@ -2034,7 +2204,13 @@ class C19(Prop):
             "lengths at block boundaries (thorough: all 0..130 x 0..40), single-bit flips of ciphertext/tag/nonce/key/AD "
             "(must be rejected), X25519 on RFC vectors, low-order and non-canonical points and random pairs (symmetry), "
             "HKDF lengths 1..8160 and the panicking lengths 0, 8161, 8192, 70000 (no output outside RFC 5869's range), "
-            "HMAC/SHA-256 message lengths 0..200, Noise nonce at counters across 64 bits; non-trivial = all")
+            "HMAC/SHA-256 message lengths 0..200, Noise nonce at counters across 64 bits; every result is also compared with the RFC value "
+            "computed by Python transcriptions of RFC 8439 / 7748 / 5869 / 2104 (checked against the RFCs' vectors). call sequences, each on the one "
+            "thread of ONE driver process: the RFC 8439 2.8.2 vector three times in a row; one request repeated 2-3 times for every exported function; "
+            "one key and ONE nonce with message x AAD lengths swept (thorough: all 0..130 x 0..40) with nothing in between, Noise form with one counter; "
+            "(key, nonce) pairs alternating and returning; Noise counters stuck / going back; HMAC key lengths 0..140 (all); HKDF output lengths at "
+            "every multiple of 32 +-1 up to 8160 and 8128..8160; SHA-256 lengths 0..300: every call must return the RFC value of its own arguments; "
+            "non-trivial = all")
     assumptions = ["orion is not modelled: its functions are compared with the RFC specifications, not proved equal",
                    "X25519 commutativity and AEAD unforgeability are not proved"]
     LOW_ORDER = ["00" * 32, "01" + "00" * 31,
@@ -2059,15 +2235,17 @@ class C19(Prop):
             c = Case("seal", key=key, nonce=nonce, ad=ctx.rbytes(a), x=ctx.rbytes(p), tags=["seal"])
             seals.append(c)
         vlib.run_impl(ctx.bin, seals)
+        def ct_of(c):   # a seal that gave no value (its own oracle reports that) does not stop the cases derived from it: they use the RFC value
+            return c.result["out"] if c.result["code"] == 0 and len(c.result["out"]) == len(c.a["x"]) + 16 else c19_seal(c.a["key"], c.a["nonce"], c.a["ad"], c.a["x"])
         for c in seals:
             out.append(c)
-            ct = c.result["out"]
+            ct = ct_of(c)
             out.append(Case("open", key=key, nonce=nonce, ad=c.a["ad"], x=ct, oracle=ok_eq(c.a["x"], "open inverts seal"), tags=["open"]))
 
         def rej(r):
             return None if r["code"] == 51 else ("an altered ciphertext/tag/nonce/key/AD is rejected", r["outcome"])
         for c in (seals if ctx.thorough() else seals[::6]):
-            ct = c.result["out"]
+            ct = ct_of(c)
             bit = rng.randrange(len(ct) * 8)
             out.append(Case("open", key=key, nonce=nonce, ad=c.a["ad"], x=flip(ct, bit), oracle=rej, tags=["flip-ct"]))
             out.append(Case("open", key=flip(key, rng.randrange(256)), nonce=nonce, ad=c.a["ad"], x=ct, oracle=rej, tags=["flip-key"]))
@@ -2125,7 +2303,7 @@ class C19(Prop):
         big = Case("seal", key=key, nonce=nonce, ad=b"big", x=ctx.rbytes(65536 + (300 if not ctx.thorough() else 70000)), tags=["seal-large"])
         vlib.run_impl(ctx.bin, [big])
         out.append(big)
-        out.append(Case("open", key=key, nonce=nonce, ad=b"big", x=big.result["out"], oracle=ok_eq(big.a["x"], "open inverts seal for large messages"), tags=["open-large"]))
+        out.append(Case("open", key=key, nonce=nonce, ad=b"big", x=ct_of(big), oracle=ok_eq(big.a["x"], "open inverts seal for large messages"), tags=["open-large"]))
         # HKDF / HMAC / SHA-256
         for n in ([1, 31, 32, 33, 64, 255] + ([8160] if ctx.thorough() else [1000])):
             out.append(Case("hkdf", salt=ctx.rbytes(rng.choice([0, 1, 32, 100])), ikm=ctx.rbytes(rng.choice([0, 22, 80])),
@@ -2135,6 +2313,209 @@ class C19(Prop):
             out.append(Case("sha256", m=ctx.rbytes(n), tags=["sha256"]))
             if n % 3 == 0:
                 out.append(Case("hmac", k=ctx.rbytes(rng.choice([0, 1, 32, 64, 65, 100])), m=ctx.rbytes(n), tags=["hmac"]))
+        # HMAC keys between the hash's output size and its block size (RFC 2104 hashes a key only above the BLOCK size 64)
+        for kl in (31, 33, 40, 48, 63, 66, 128, 131, rng.randrange(33, 64), rng.randrange(33, 64)):
+            out.append(Case("hmac", k=ctx.rbytes(kl), m=ctx.rbytes(rng.choice([0, 3, 64, 100])), tags=["hmac", "hmac-key-%s" % ("33..64" if 33 <= kl <= 64 else "other")]))
+        # every case also carries the RFC value (Python transcription) as a direct expectation
+        return [c19_with_reference(c) for c in out]
+
+
+    # ---------------------------------------------------------------- the RFC values as direct expectations; call sequences
+    def c19_selftest(self, ctx):
+        """the Python transcriptions against the RFCs' own vectors (RFC 8439 2.8.2, RFC 7748 5.2 / 6.1, RFC 5869 A.1, RFC 4231 cases 1, 2, 6)"""
+        h = bytes.fromhex
+        try:
+            key, nonce, aad, pt, ct = self.c19_rfc8439()
+            ok = c19_seal(key, nonce, aad, pt) == ct
+            ok = ok and c19_x25519(h("a546e36bf0527c9d3b16154b82465edd62144c0ac1fc5a18506a2244ba449ac4"), h("e6db6867583030db3594c1a424b15f7c726624ec26b3353b10a903a6d0ab1c4c")) == \
+                h("c3da55379de9c6908e94ea4df28d084f32eccf03491c71f754b4075577a28552")
+            ok = ok and c19_x25519(h("77076d0a7318a57d3c16c17251b26645df4c2f87ebc0992ab177fba51db92c2a"), b"\x09" + bytes(31)) == \
+                h("8520f0098930a754748b7ddcb43ef75a0dbf3a0d26381af4eba4a98eaa9b4e6a")
+            ok = ok and c19_hkdf(h("000102030405060708090a0b0c"), h("0b" * 22), h("f0f1f2f3f4f5f6f7f8f9"), 42) == \
+                h("3cb25f25faacd57a90434f64d0362f2a2d2d0a90cf1a5a4c5db02d56ecc4c5bf34007208d5b887185865")
+            ok = ok and c19_hmac_spelled_out(h("0b" * 20), b"Hi There") == h("b0344c61d8db38535ca8afceaf0bf12b881dc200c9833da726e9376c2e32cff7")
+            ok = ok and c19_hmac_spelled_out(b"Jefe", b"what do ya want for nothing?") == h("5bdcc146bf60754e6a042426089575c75a003f089d2739839dec58b964ec3843")
+            ok = ok and c19_hmac_spelled_out(h("aa" * 131), b"Test Using Larger Than Block-Size Key - Hash Key First") == \
+                h("60e431591ee0b67f0d8a26aacbf5b77f8e0bc6213728c5140546040f0ee37f54")
+            for kl in (0, 1, 32, 33, 63, 64, 65, 131):
+                ok = ok and c19_hmac_spelled_out(bytes(range(kl)), b"abc") == c19_hmac(bytes(range(kl)), b"abc")
+        except Exception as ex:   # noqa
+            ok = False
+            ctx.broken.append({"kind": "machinery", "what": "C19 reference transcriptions raised %r" % ex})
+            return False
+        if not ok:
+            ctx.broken.append({"kind": "machinery", "what": "the Python transcriptions of RFC 8439 / 7748 / 5869 / 2104 fail the RFCs' own test vectors"})
+        return ok
+
+    @staticmethod
+    def c19_rfc8439():
+        """RFC 8439 section 2.8.2: key, nonce, aad, plaintext, ciphertext || tag"""
+        h = bytes.fromhex
+        pt = b"Ladies and Gentlemen of the class of '99: If I could offer you only one tip for the future, sunscreen would be it."
+        ct = h("d31a8d34648e60db7b86afbc53ef7ec2a4aded51296e08fea9e2b5a736ee62d63dbea45e8ca9671282fafb69da92728b1a71de0a9e060b2905d6a5b67ecd3b36"
+               "92ddbd7f2d778b8c9803aee328091b58fab324e4fad675945585808b4831d7bc3ff4def08e4b7a9de576d26586cec64b61161ae10b594f09e26a7e902ecbd0600691")
+        return (h("808182838485868788898a8b8c8d8e8f909192939495969798999a9b9c9d9e9f"), h("070000004041424344454647"), h("50515253c0c1c2c3c4c5c6c7"), pt, ct)
+
+    def c19_gen_sequences(self, ctx):
+        """(family, [Case, ...]): every sequence is run IN ORDER on the one thread of ONE driver process of its own.  The functions
+        are pure: whatever was computed before (the same request, the same key and nonce with another message, another key), every
+        call returns the RFC value of its own arguments."""
+        rng = ctx.rng
+        full = ctx.thorough()
+        seqs = []
+        key, nonce, aad, pt, _ = self.c19_rfc8439()
+        # 1. the RFC 8439 vector evaluated three times in a row; then with its open in between; then as a Noise seal
+        seqs.append(("rfc8439-vector-repeated", [Case("seal", key=key, nonce=nonce, ad=aad, x=pt) for _ in range(3)]))
+        s_ = Case("seal", key=key, nonce=nonce, ad=aad, x=pt)
+        seqs.append(("rfc8439-vector-repeated", [s_, Case("open", key=key, nonce=nonce, ad=aad, x=c19_seal(key, nonce, aad, pt)),
+                                                 Case("seal", key=key, nonce=nonce, ad=aad, x=pt), Case("seal", key=key, nonce=nonce, ad=aad, x=pt)]))
+        # 2. one and the same request twice / three times in a row, for every exported function
+        for _ in range(6 if full else 2):
+            k, n12 = ctx.rbytes(32), ctx.rbytes(12)
+            ad, x = ctx.rbytes(rng.choice([0, 1, 16, 33])), ctx.rbytes(rng.choice([0, 1, 15, 16, 17, 64, 65, 130]))
+            cnt = rng.choice([0, 1, 255, 2 ** 32, rng.getrandbits(63)])
+            sk, pk = ctx.rbytes(32), c19_x25519(ctx.rbytes(32), b"\x09" + bytes(31))
+            for mk in (lambda: Case("seal", key=k, nonce=n12, ad=ad, x=x),
+                       lambda: Case("nseal", key=k, n=cnt, ad=ad, x=x),
+                       lambda: Case("open", key=k, nonce=n12, ad=ad, x=c19_seal(k, n12, ad, x)),
+                       lambda: Case("nopen", key=k, n=cnt, ad=ad, x=c19_seal(k, c19_noise_nonce(cnt), ad, x)),
+                       lambda: Case("hmac", k=k[:rng.choice([0, 7, 32])] if rng.random() < 0.5 else ctx.rbytes(rng.randrange(33, 140)), m=x),
+                       lambda: Case("hkdf", salt=ad, ikm=k, info=x[:20], n=rng.choice([1, 32, 33, 64, 100])),
+                       lambda: Case("sha256", m=x),
+                       lambda: Case("x25519", k=sk, u=pk),
+                       lambda: Case("xpub", k=sk)):
+                first = mk()
+                rep = rng.choice([2, 2, 3])
+                seqs.append(("same-request-repeated/" + first.op, [first] + [Case(first.op, **dict(first.a)) for _ in range(rep - 1)]))
+        # 3. one key and ONE nonce, the message and AAD lengths swept without anything in between (the way the property's
+        #    0..130 x 0..40 grid is naturally written); the Noise form with one counter likewise
+        for fam_i in range(3 if full else 1):
+            k, n12 = ctx.rbytes(32), ctx.rbytes(12)
+            if full:
+                grid = [(p, a) for p in range(0, 131) for a in range(0, 41)] if fam_i == 0 else [(p, rng.randrange(0, 41)) for p in range(0, 131)]
+            else:
+                grid = [(p, rng.choice([0, 1, 12, 15, 16, 17, 40])) for p in range(0, 131, 1)][::2] + [(p, a) for p in (0, 16, 64) for a in (0, 1, 16, 40)]
+            seqs.append(("length-sweep-one-key-one-nonce/seal", [Case("seal", key=k, nonce=n12, ad=ctx.rbytes(a), x=ctx.rbytes(p)) for p, a in grid]))
+            cnt = rng.choice([0, 7, 2 ** 40 + 3])
+            seqs.append(("length-sweep-one-key-one-nonce/nseal", [Case("nseal", key=k, n=cnt, ad=ctx.rbytes(a), x=ctx.rbytes(p)) for p, a in grid[::4]]))
+        # 4. pairs alternating and returning: A B A A B B, (key, nonce) differing in the key only / the nonce only
+        for _ in range(4 if full else 2):
+            k1, k2, n1, n2 = ctx.rbytes(32), ctx.rbytes(32), ctx.rbytes(12), ctx.rbytes(12)
+            A, B = rng.choice([((k1, n1), (k2, n1)), ((k1, n1), (k1, n2)), ((k1, n1), (k2, n2))])
+            order = rng.choice([[A, B, A, A, B, B], [A, A, B, A], [B, A, B, B, A, A]])
+            seqs.append(("pairs-alternating", [Case("seal", key=kk, nonce=nn, ad=ctx.rbytes(rng.choice([0, 5])), x=ctx.rbytes(rng.randrange(0, 70))) for kk, nn in order]))
+        # 5. Noise counters in order, stuck, and going back (the exported function does not police its caller)
+        k = ctx.rbytes(32)
+        cs_ = [0, 1, 2, 2, 3, 1, 0, 0, 2 ** 64 - 2, 2 ** 64 - 2]
+        seqs.append(("noise-counter-stuck-or-going-back", [Case("nseal", key=k, n=c_, ad=b"", x=ctx.rbytes(rng.randrange(0, 40))) for c_ in cs_]))
+        # 6. HMAC: every key length 0..140 (the hash's output size 32 and its block size 64 are both boundaries), one message; the
+        #    same key twice with different messages
+        for m in ([b"", ctx.rbytes(rng.randrange(1, 100))] + ([ctx.rbytes(64), ctx.rbytes(200)] if full else [])):
+            base = ctx.rbytes(141)
+            seqs.append(("hmac-key-length-sweep", [Case("hmac", k=base[:kl] if rng.random() < 0.7 else ctx.rbytes(kl), m=m) for kl in range(0, 141)]))
+        kk = ctx.rbytes(rng.choice([33, 48, 64]))
+        seqs.append(("hmac-key-length-sweep", [Case("hmac", k=kk, m=ctx.rbytes(i)) for i in (0, 1, 55, 56, 64, 119)]))
+        # 7. HKDF: output lengths at every block boundary up to the maximum 8160, the last block completely, small lengths densely
+        lens = sorted(set(list(range(1, 70)) + [32 * i + d for i in range(1, 256) for d in (-1, 0, 1)] + list(range(8128, 8161))))
+        lens = [n for n in lens if 1 <= n <= 8160]
+        if not full:
+            lens = sorted(set(rng.sample(lens, 150) + [1, 31, 32, 33, 64, 8128, 8129, 8159, 8160] + list(range(8150, 8161))))
+        h = bytes.fromhex
+        fixed = (h("000102030405060708090a0b0c"), h("0b" * 22), h("f0f1f2f3f4f5f6f7f8f9"))
+        seqs.append(("hkdf-length-sweep/rfc5869-A.1-inputs", [Case("hkdf", salt=fixed[0], ikm=fixed[1], info=fixed[2], n=n) for n in lens]))
+        seqs.append(("hkdf-length-sweep/random-inputs", [Case("hkdf", salt=ctx.rbytes(rng.choice([0, 1, 32, 64, 65, 100])), ikm=ctx.rbytes(rng.choice([0, 1, 32, 80])),
+                                                         info=ctx.rbytes(rng.choice([0, 1, 10, 100])), n=n) for n in lens[::3] + [8160, 8160]]))
+        # 8. SHA-256 message lengths 0..300, all
+        seqs.append(("sha256-length-sweep", [Case("sha256", m=ctx.rbytes(n)) for n in range(0, 301)]))
+        return seqs
+
+    @staticmethod
+    def c19_body(c):
+        c.id = "0"
+        return c.rust_line().split(" ", 1)[1]
+
+    def c19_sequences(self, ctx):
+        from concurrent.futures import ThreadPoolExecutor
+        seqs = self.c19_gen_sequences(ctx)
+        with ThreadPoolExecutor(max_workers=vlib.NPROC) as ex:
+            list(ex.map(lambda s: vlib.run_impl(ctx.bin, s[1]), seqs))
+        dist = collections.Counter(ctx.distribution)
+        nviol = 0
+        sample = []
+        for fam, cs in seqs:
+            dist["sequence:" + fam] += 1
+            bodies = None
+            for i, c in enumerate(cs):
+                ctx.evaluations += 1
+                ctx.distinct_nontrivial += 1
+                ctx.oracle_checks += 1
+                dist["sequence-op:" + c.op] += 1
+                v = c19_verdict(c, c.result)
+                if v is None:
+                    continue
+                nviol += 1
+                if nviol > 12:
+                    dist["further-sequence-violations-not-written-as-replays"] += 1
+                    continue
+                if bodies is None:
+                    bodies = [self.c19_body(x) for x in cs]
+                first_same = next((j for j in range(i) if bodies[j] == bodies[i]), None)
+                ctx.violations.append({
+                    "input": {"driver": "libdrv", "lines": bodies[:i + 1], "family": fam, "call": c.full(),
+                              "note": "the lines are executed in this order on the one thread of ONE driver process; the LAST line is the failing call"
+                                      + ("; line %d is the identical request" % first_same if first_same is not None else "")},
+                    "expected": "call %d of the sequence returns, as every call does whatever was computed before it, " % i + v[0],
+                    "observed": v[1], "finding_key": None})
+            if len(sample) < 60 and fam.split("/")[0] in ("rfc8439-vector-repeated", "same-request-repeated", "pairs-alternating", "noise-counter-stuck-or-going-back"):
+                sample += cs[:6]
+        ctx.distribution = dict(dist)
+        if not ctx.samples or len(ctx.samples) < 8:
+            ctx.samples.append({"gen": "sequences", "families": sorted(set(f for f, _ in seqs)), "sequences": len(seqs), "calls": sum(len(c) for _, c in seqs)})
+        # a part of the sequences also through the Gallina specifications (which have no state), again in order in one process
+        if sample:
+            fresh = [Case(c.op, **dict(c.a)) for c in sample]
+            self.run_cases(ctx, fresh, model=True)
+
+    def explore(self, ctx):
+        if not self.c19_selftest(ctx):
+            return
+        super().explore(ctx)
+        singles, ctx.violations = ctx.violations, []
+        self.c19_sequences(ctx)
+        # failing inputs that carry the calls made before them come first; a single-call failing input is re-run alone in a fresh
+        # process, and said to depend on the process's history when it does not fail there
+        if len(singles) > 25:
+            ctx.distribution["further-violations-not-written-as-replays"] = ctx.distribution.get("further-violations-not-written-as-replays", 0) + len(singles) - 25
+            singles = singles[:25]
+        for v in singles:
+            try:
+                c = case_from_full(v["input"])
+                vlib.run_impl(ctx.bin, [c])
+                if c19_reference(c) is not None and c19_verdict(c, c.result) is None:
+                    v["observed"] = str(v["observed"]) + "  [alone in a fresh process the same call returns the RFC value: the failure depends on the calls made " \
+                                                         "before it in the same process; the replays with input.lines give such a history]"
+            except Exception:   # noqa
+                pass
+        ctx.violations += singles
+        ctx.search_note = (ctx.search_note + "; " if ctx.search_note else "") + \
+            "every result compared with the RFC value computed in Python (%d oracle checks), call sequences in one process included" % ctx.oracle_checks
+
+    def replay(self, ctx, payload):
+        inp = payload.get("input", {})
+        if isinstance(inp, dict) and inp.get("lines") and inp.get("call"):
+            res, _ = vlib.run_driver(ctx.bin, ["%d %s" % (i + 1, b) for i, b in enumerate(inp["lines"])])
+            last = res.get(str(len(inp["lines"])), "%d outcome=missing" % len(inp["lines"]))
+            c = case_from_full(inp["call"])
+            return {"holds": c19_verdict(c, vlib.parse_result(c.op, last)) is None, "implementation": [res.get(str(i + 1), "")[:300] for i in range(len(inp["lines"]))][-6:],
+                    "expected": payload.get("expected")}
+        out = super().replay(ctx, payload)
+        try:
+            c = case_from_full(inp)
+            vlib.run_impl(ctx.bin, [c])
+            if c19_reference(c) is not None:
+                out["holds"] = c19_verdict(c, c.result) is None
+        except Exception:   # noqa
+            pass
         return out
 
 
